@@ -267,7 +267,7 @@ def e2e_case(draw):
             # would otherwise be hit by a quarter of all generated files)
             inl = flavour in ("notree", "jinja-fatal") and draw(st.integers(0, 3)) != 0
             ds = [draw(directive(special_bias=special and draw(st.booleans()), theme=theme, inline_only=inl))
-                  for _ in range(k)]
+                  for _ in range(min(k, 1) if inl else k)]
             seen_inline = False
             keep = []
             for d in ds:
@@ -333,7 +333,9 @@ class C20(Check):
         "of code,line,pos,description); unused-noqa warnings: never-a-hider must be reported, sole hider must not, "
         "ambiguous attribution and enable directives not judged. Under disable_noqa_except only directives that "
         "name rules are generated (what a bare 'noqa'/'all' means there is not documented: not demanded) and globs "
-        "that would match PRS/LXR/TMP are left out. Non-trivial: a range directive and a plain directive interact "
+        "that would match PRS/LXR/TMP are left out. Files without a parse tree get mostly inline directives, because "
+        "block directives there run into F-C20-a (pinned reproducers keep it in view); a failure is attributed to "
+        "F-C20-a / F-C20-b only when the observation equals the model of that defect exactly. Non-trivial: a range directive and a plain directive interact "
         "on the same rule (unit: overlapping rule sets with the range directive at or before the plain one; e2e: "
         "some true violation is covered both by a plain directive on its line and by a range directive at or "
         "before its line)."
